@@ -9,3 +9,10 @@ def run(chk, args):
     if args.replay:
         return brokerlib.replay(chk, "C02", args.replay)
     brokerlib.pipeline(chk, "C02", chk.tier, chk.seed)
+
+
+MANIFEST = {
+    "technique": 'TLA+ spec Broker (+Broker_Trace): exhaustive TLC model checking of NoCrossWire/OneOfferPerPoll/OnePollPerOffer/RelayURLRight/UnlistedNeverMatched; TLC -simulate behaviours replayed with gates into the real handlers under a fake clock, same-instant herds, every recorded execution validated by TLC against the trace spec',
+    "text": 'All interleavings of polls, offers, answers and timeouts are explored on the model for small request sets; the binding is two-way: TLC behaviours are forced onto the real /proxy, /client (POST, legacy, AMP) and /answer handlers with gates at the racing points, and every recorded execution (gated or herd) must be a behaviour of the spec with the C02 invariants evaluated in each state (which answer reached which client, which offer reached which poll, relay URL of the named bridge).',
+    "note": 'Bounded: MC up to 3 proxies/2 clients/2 answers (thorough), herds up to 12 per wave; fake clock of testing/synctest (go1.26.8); handlers driven through ServeHTTP; pairwise distinct session ids.',
+}
